@@ -248,7 +248,7 @@ def vacuity_check(ctx, eng, false_ob):
         elif r == 'unknown':
             ctx.vacuity['reach_sat'] += 1
             ctx.notes.append('reachability twin: unknown (path kept by over-approximation)')
-    r, _ = eng.check(false_ob, timeout=10000)
+    r, _ = eng.check(false_ob, timeout=3000)
     if r == 'sat':
         ctx.vacuity['false_ob_sat'] += 1
 
